@@ -1,10 +1,10 @@
 //! Run one case in a forked child with a watchdog: abort and hang become outcomes.
+//! The child streams one output per op (separated by 0x1f) so that the outputs produced before
+//! a hang or abort are kept; the abnormal end is appended as a final output `HANG` / `ABORT sig=N`.
 use std::io::{Read, Write};
 use std::os::unix::io::FromRawFd;
 
-pub enum Outcome { Done(String), Abort(i32), Hang, Exit(i32) }
-
-pub fn isolated<F: FnOnce() -> String>(timeout_ms: u64, f: F) -> Outcome {
+pub fn isolated<F: FnOnce(&mut dyn FnMut(&str))>(timeout_ms: u64, f: F) -> String {
     unsafe {
         let mut fds = [0i32; 2];
         assert_eq!(0, libc::pipe(fds.as_mut_ptr()));
@@ -13,18 +13,19 @@ pub fn isolated<F: FnOnce() -> String>(timeout_ms: u64, f: F) -> Outcome {
         assert!(pid >= 0, "fork failed");
         if pid == 0 {
             libc::close(fds[0]);
-            // silence panic messages / repo logging of the child
             let devnull = libc::open(b"/dev/null\0".as_ptr().cast(), libc::O_WRONLY);
             if std::env::var_os("OCH_CHILD_STDERR").is_none() { libc::dup2(devnull, 2); }
             libc::dup2(devnull, 1);
-            let out = f();
             let mut w = std::fs::File::from_raw_fd(fds[1]);
-            let _ = w.write_all(out.as_bytes());
-            let _ = w.flush();
+            let mut emit = |o: &str| {
+                let _ = w.write_all(o.as_bytes());
+                let _ = w.write_all(&[0x1f]);
+                let _ = w.flush();
+            };
+            f(&mut emit);
             libc::_exit(0);
         }
         libc::close(fds[1]);
-        // reader with deadline: poll the pipe until EOF or timeout
         let mut r = std::fs::File::from_raw_fd(fds[0]);
         let mut buf = Vec::new();
         let start = std::time::Instant::now();
@@ -44,31 +45,33 @@ pub fn isolated<F: FnOnce() -> String>(timeout_ms: u64, f: F) -> Outcome {
             }
         }
         let mut status = 0i32;
+        let mut tail: Option<String> = None;
         if hang {
             libc::kill(pid, libc::SIGKILL);
             libc::waitpid(pid, &mut status, 0);
-            return Outcome::Hang;
+            tail = Some("HANG".into());
+        } else {
+            let t1 = std::time::Instant::now();
+            loop {
+                let w = libc::waitpid(pid, &mut status, libc::WNOHANG);
+                if w == pid { break; }
+                if t1.elapsed().as_millis() as u64 > timeout_ms {
+                    libc::kill(pid, libc::SIGKILL);
+                    libc::waitpid(pid, &mut status, 0);
+                    tail = Some("HANG".into());
+                    break;
+                }
+                std::thread::sleep(std::time::Duration::from_micros(100));
+            }
+            if tail.is_none() {
+                if libc::WIFSIGNALED(status) { tail = Some(format!("ABORT sig={}", libc::WTERMSIG(status))); }
+                else if libc::WEXITSTATUS(status) != 0 { tail = Some(format!("EXIT code={}", libc::WEXITSTATUS(status))); }
+            }
         }
-        // EOF: child closed the pipe (exit or death); reap it, with a grace period
-        let t1 = std::time::Instant::now();
-        loop {
-            let w = libc::waitpid(pid, &mut status, libc::WNOHANG);
-            if w == pid { break; }
-            if t1.elapsed().as_millis() as u64 > timeout_ms { libc::kill(pid, libc::SIGKILL); libc::waitpid(pid, &mut status, 0); return Outcome::Hang; }
-            std::thread::sleep(std::time::Duration::from_micros(200));
-        }
-        if libc::WIFSIGNALED(status) { return Outcome::Abort(libc::WTERMSIG(status)); }
-        let code = libc::WEXITSTATUS(status);
-        if code != 0 { return Outcome::Exit(code); }
-        Outcome::Done(String::from_utf8_lossy(&buf).into_owned())
-    }
-}
-
-pub fn render(o: Outcome) -> String {
-    match o {
-        Outcome::Done(s) => s,
-        Outcome::Abort(sig) => format!("ABORT sig={sig}"),
-        Outcome::Hang => "HANG".to_string(),
-        Outcome::Exit(c) => format!("EXIT code={c}"),
+        let text = String::from_utf8_lossy(&buf).into_owned();
+        let mut outs: Vec<String> = text.split('\u{1f}').map(|s| s.to_string()).collect();
+        if outs.last().map(|s| s.is_empty()).unwrap_or(false) { outs.pop(); }
+        if let Some(t) = tail { outs.push(t); }
+        outs.join(" | ")
     }
 }
